@@ -104,6 +104,8 @@ PROPS = {
              # sorted consumption of queues that went through in-place mutation from either end
              rnd("both", "iter", 1500, 50, exclude="iter,intoiter,drain", boost="sortediter:3,itermut:2"),
              rnd("both", "bulk", 1000, 50, exclude="serde,deser,eq,intovec", boost="sortedvec:6,retainmut:3"),
+             # deeper heaps (up to 40 elements) with keyed updates before the sorted consumption
+             rnd("both", "iter", 500, 120, keys=40, prios="wide", exclude="itermut,iter,intoiter,drain", boost="sortediter:3,chg:4,pushinc:3,pushdec:3,remove:2"),
              builds("pq", 4), builds("dpq", 5), pygen("big_sorted", 2)],
             [rnd("both", "iter", 20000, 80, exclude="itermut,iter,intoiter,drain", boost="sortediter:3"), builds("dpq", 7), pygen("big_sorted", 4)]),
     ),
